@@ -340,7 +340,7 @@ pub fn run(ctx: &RunCtx) {
         ctx.eval_local("C19", &mut st, rep);
         ctx.merge_stats(st);
     }
-    let max_len = ctx.pick(6usize, 8usize);
+    let max_len = ctx.pick(7usize, 9usize);
     // split on the first two operations
     let firsts: Vec<(usize, usize)> = (0..EXH_OPS.len()).flat_map(|a| (0..EXH_OPS.len()).map(move |b| (a, b))).collect();
     ctx.par_units(firsts.len() + EXH_OPS.len(), |u, stats| {
